@@ -292,6 +292,20 @@ fn all_or_lattice(ctx: &mut Ctx, ty: &Ty, nrandom: usize) -> Vec<u64> {
 
 pub fn suite_c05(ctx: &mut Ctx) {
     const OPS: [(&str, &str); 4] = [("mul_add", "m"), ("mul_sub", "m"), ("sub_product", "m"), ("mul_add", "nt")];
+    // thorough: P8E0 exhaustively -- every one of the 2^24 operand triples through all three operations
+    // (quick: a seeded coset of 1/64 of them)
+    {
+        let stride = ctx.q(64, 1) as u64;
+        let off = ctx.seed % stride;
+        let mut w = off;
+        while w < (1u64 << 24) {
+            let (a, b, c) = (w >> 16, (w >> 8) & 0xff, w & 0xff);
+            ctx.call(&P8T, "mul_add", "m", &[a, b, c]);
+            ctx.call(&P8T, "mul_sub", "m", &[a, b, c]);
+            ctx.call(&P8T, "sub_product", "m", &[a, b, c]);
+            w += stride;
+        }
+    }
     for ty in FIXED {
         let lat = lat_for(ctx, ty);
         let ntr = if ty.n == 8 { ctx.q(60_000, 1_500_000) } else { ctx.q(40_000, 600_000) };
